@@ -7,13 +7,14 @@ CONSTANTS
   CGS = 5
   Depth = 9
   MaxReplies = 5
-  MaxReplies2 = 3
+  MaxReplies2 = 5
   MaxDup = 1
   MaxForeign = 1
   MaxLate = 1
   QuorumSet = {"One", "N2", "Maj", "All"}
   Triples = {{1, 2, 13}}
   SplitSizes = {2, 3}
+  AllCfgs = FALSE
   Record = FALSE
   KnownMask = {"C05-merge-bypasses-target", "C05-mixed-kinds-first-record-dictates", "C05-equal-counter-scratchpad-first-wins"}
 INVARIANTS NoClauseFalsified
